@@ -33,7 +33,7 @@ Why(c, o) == LET e == PEnd(c)
    ELSE IF ObsMissing(o) # Missing(c, f.edges) \/ Len(o.missing) # Cardinality(Missing(c, f.edges)) THEN "missing"
    ELSE IF "missing0" \in DOMAIN o /\ { ToSet(o.missing0[j]) : j \in DOMAIN o.missing0 } # Missing(c, BlockEdges(c)) THEN "missing0"
    ELSE IF ObsInts(o) = f.ints /\ nodup THEN ""
-   ELSE IF ObsInts(o) = StripLi(PIntsW(c, e.app, TRUE)) /\ nodup THEN "known-verkey"
+   ELSE IF ObsInts(o) = StripLi(PIntsW(c, e.app, TRUE)) \cup XInts(c) /\ nodup THEN "known-verkey"
    ELSE "interactions"
 \* what differs, for the report of a rejected record
 Detail(c, o) == LET f == PFinal(c) IN
